@@ -90,6 +90,32 @@ def sched_trace(prop, verdict, trace, st, batch):
     vlib.log("[%s] more than 4 rejected scheduling runs; stopping" % prop)
 
 
+def died_in_thunder(prop, verdict, b, curf, out):
+    """The driver process died.  Only if its death is a Go fatal error / panic whose running goroutine is inside
+    thunder's own packages AND re-running the very run it was executing in a fresh process dies the same way
+    is that a verdict (the server would have died on a valid query); anything else is inconclusive."""
+    def fatal_in_thunder(text):
+        m = re.search(r"^(fatal error: .*|panic: .*)$", text, re.M)
+        if not m:
+            return None
+        running = text[m.start():]
+        k = running.find("[running]")
+        top = running[k:k + 6000] if k >= 0 else running[:6000]
+        frames = re.findall(r"^(github\.com/samsarahq/thunder/[\w./*()]+)", top, re.M)
+        return (m.group(1), frames[0]) if frames else None
+    first = fatal_in_thunder(out)
+    if not first or not os.path.exists(curf):
+        raise Inconclusive("the exec driver died: %s" % out[-3000:])
+    rc, out2 = vlib.vh(["exec", "-world", b["world"], "-one", curf], timeout=600, check=False)
+    again = fatal_in_thunder(out2) if rc != 0 else None
+    if not again:
+        raise Inconclusive("the exec driver died inside thunder (%s at %s) but the run does not die again on its own:\n%s" % (
+            first[0], first[1], out[-1500:]))
+    cur = json.load(open(curf))
+    verdict.report(None, "the process dies executing a valid query (%s in %s, twice): %s" % (again[0], again[1], cur["text"].replace("\n", " ")[:200]),
+                   {"kind": "death", "batch": b["name"], "run": cur, "fatal": again[0], "frame": again[1]})
+
+
 def run_batches(prop, verdict, batches, classify=None):
     """batches: list of dicts(name, args(list), world(int)). Returns stats."""
     sc = vlib.scratch()
@@ -111,7 +137,12 @@ def run_batches(prop, verdict, batches, classify=None):
         strace = os.path.join(sc, "sched_%s_%d.ndjson" % (prop, i))
         if b.get("sched"):
             args += ["-schedtrace", strace]
-        vlib.vh(args, timeout=1700)
+        curf = os.path.join(sc, "current_%s_%d.json" % (prop, i))
+        args += ["-current", curf]
+        rc, out = vlib.vh(args, timeout=1700, check=False)
+        if rc != 0:
+            died_in_thunder(prop, verdict, b, curf, out)
+            continue
         if b.get("sched"):
             sched_trace(prop, verdict, strace, st, b["name"])
         t = judge(zoo, recs, bad)
